@@ -16,5 +16,9 @@ open Cppcms
   J := C11.Value N
   write := C11.save ops Gen.jsonSaveReadable
   read := fun text => (C11.parseStream ops Gen.jsonLoadFull text).map (·.1)
+  dflt := .undef
+  isDflt := fun v => match v with | .undef => true | _ => false
+  isDflt_eq := by intro x h; cases x <;> first | rfl | cases h
+  isDflt_dflt := rfl
 
 end Cppcms.C19
